@@ -460,7 +460,7 @@ func TestVerifC20(t *testing.T) {
 	}
 	defer os.RemoveAll(dir)
 	rr := r.Rand("c20", part)
-	n := r.Pick(400, 10000)
+	n := r.Pick(400, 30000)
 	if part == "race" {
 		n = r.Pick(150, 1000)
 	}
